@@ -102,6 +102,8 @@ class TokenExchangeHelper(TokenEndpointHelper):
             return self.error_cls(
                 error="invalid_scope", error_description="Invalid requested scopes"
             )
+        # what is issued is what passed the filter for the requesting client
+        resp["scope"] = scopes
 
         _requested_token_type = resp.get(
             "requested_token_type", "urn:ietf:params:oauth:token-type:access_token"
